@@ -5,7 +5,8 @@
 From Coq Require Import ZifyBool.
 From Verif Require Import Common.Base Common.Tactics JsScope.Model JsScope.Spec JsScope.Abs JsScope.HeapLemmas
   JsScope.SimDefs JsScope.SimUse JsScope.SimDeclare3 JsScope.SimRun
-  JsScope.Resolve1 JsScope.Resolve2 JsScope.Resolve3 JsScope.Resolve4 JsScope.Resolve5 JsScope.Resolve6 JsScope.Resolve7.
+  JsScope.Resolve1 JsScope.Resolve2 JsScope.Resolve3 JsScope.Resolve4 JsScope.Resolve5 JsScope.Resolve6 JsScope.Resolve7
+  JsScope.Bridge JsScope.AuxFree.
 
 (* ---- counting occurrences ---------------------------------------------------------------------------------- *)
 Lemma nocc_app l1 l2 : nocc (l1 ++ l2) = nocc l1 + nocc l2.
@@ -43,11 +44,11 @@ Proof.
 Qed.
 
 Lemma am_program p :
-  core_d p = true -> program_ok p = true ->
+  core_x p = true -> program_ok p = true ->
   exists a' fr',
     arun init_astate (program_events p) = ARun a' /\ AInv a' [(fr', pr0 p)] /\ fid fr' = O /\
     (forall y, In y (pnames (pr0 p)) -> In y (dnames fr')) /\
-    map (final (e0 p)) (alog a') = rev (spec_resolve p).
+    map (final (e0 p)) (alog a') = rev (spec_resolve_m p).
 Proof.
   intros Hc Hok. unfold program_ok in Hok. apply andb_true_iff in Hok. destruct Hok as [Hsc Hok].
   destruct (scope_ok_spec [] p Hsc) as (Hnd & Hlv & _).
@@ -70,8 +71,8 @@ Proof.
   destruct (run_core p Hc a0 F0 (pr0 p) [] A0 Hnd) as (a' & fr' & rest' & R & A' & G & P1 & P2 & _ & _ & F & N).
   { intros x Hx. split; [exact Hx|intros []]. }
   { intros x Hx. cbn. exact Hx. }
-  { rewrite (core_d_headdecls p Hc). constructor. }
-  { rewrite (core_d_headdecls p Hc). intros x []. }
+  { rewrite (core_x_headdecls p Hc). constructor. }
+  { rewrite (core_x_headdecls p Hc). intros x []. }
   { exact Hok. }
   pose proof (grow_shape _ _ _ _ G) as Hs. cbn in Hs. destruct rest' as [|g r]; [|discriminate].
   injection Hs as Hfid Hfunc.
@@ -113,13 +114,13 @@ Proof.
   destruct (Nat.eqb_spec (root_of st u) r) as [E|E]; destruct (Nat.eq_dec (root_of st u) r) as [E'|E']; try contradiction; cbn [length]; rewrite IH; reflexivity.
 Qed.
 
-Theorem resolution_correct_core p :
-  core_d p = true -> program_ok p = true -> Z.of_nat (occurrences p) < 65536 ->
+Theorem resolution_correct_m p :
+  core_x p = true -> program_ok p = true -> Z.of_nat (occurrences p) < 65536 ->
   exists ps,
     run_program p = Running ps /\
     let st := pst ps in
     let vs := map (root_of st) (rev (plog ps)) in
-    let ts := spec_resolve p in
+    let ts := spec_resolve_m p in
     length vs = length ts /\
     (forall i j, (i < length vs)%nat -> (j < length vs)%nat ->
        (nth i vs O = nth j vs O <-> nth i ts (TGlobal 0) = nth j ts (TGlobal 0))) /\
@@ -146,8 +147,8 @@ Proof.
   subst stk.
   assert (Elog : alog a' = map (lab_of st home) log) by (rewrite Eabs; reflexivity).
   (* targets, read off the labels *)
-  assert (Ets : spec_resolve p = map (fun w => final (e0 p) (lab_of st home w)) (rev log)).
-  { rewrite <- (rev_involutive (spec_resolve p)), <- Hfin, Elog. rewrite map_map, map_rev. reflexivity. }
+  assert (Ets : spec_resolve_m p = map (fun w => final (e0 p) (lab_of st home w)) (rev log)).
+  { rewrite <- (rev_involutive (spec_resolve_m p)), <- Hfin, Elog. rewrite map_map, map_rev. reflexivity. }
   assert (Hval : forall w, In w (rev log) -> (w < nvars st)%nat) by (intros w Hw; apply (I_log _ _ _ _ _ RS); apply in_rev; exact Hw).
   assert (Hlab : forall w, In w (rev log) ->
             match lab_of st home w with
@@ -164,7 +165,7 @@ Proof.
   assert (Hnth_v : forall i, (i < length (rev log))%nat -> nth i (map (root_of st) (rev log)) O = root_of st (nth i (rev log) O)).
   { intros i Hi. rewrite (nth_indep _ O (root_of st O)) by (rewrite map_length; exact Hi). apply map_nth. }
   assert (Hnth_t : forall i, (i < length (rev log))%nat ->
-            nth i (spec_resolve p) (TGlobal 0) = final (e0 p) (lab_of st home (nth i (rev log) O))).
+            nth i (spec_resolve_m p) (TGlobal 0) = final (e0 p) (lab_of st home (nth i (rev log) O))).
   { intros i Hi. rewrite Ets.
     rewrite (nth_indep _ (TGlobal 0) (final (e0 p) (lab_of st home O))) by (rewrite map_length; exact Hi).
     apply (map_nth (fun w => final (e0 p) (lab_of st home w))). }
@@ -213,6 +214,63 @@ Proof.
     assert (Hwi : In wi (rev log)) by (apply nth_In; exact Hi).
     destruct (Hroot wi (Hval wi Hwi)) as [Vi Ri].
     rewrite (I_count _ _ RU _ Vi Ri). f_equal. apply count_root_count_occ.
+Qed.
+
+(* the same for the declarative resolver itself, where auxiliary and main scopes share no name *)
+Theorem resolution_correct_core p :
+  core_x p = true -> program_ok p = true -> aux_distinct (spec_resolve p) = true -> Z.of_nat (occurrences p) < 65536 ->
+  exists ps,
+    run_program p = Running ps /\
+    let st := pst ps in
+    let vs := map (root_of st) (rev (plog ps)) in
+    let ts := spec_resolve p in
+    length vs = length ts /\
+    (forall i j, (i < length vs)%nat -> (j < length vs)%nat ->
+       (nth i vs O = nth j vs O <-> nth i ts (TGlobal 0) = nth j ts (TGlobal 0))) /\
+    (forall i x, (i < length vs)%nat -> nth i ts (TGlobal 0) = TGlobal x ->
+       In (nth i vs O) (sundeclared (sc_of st O)) /\ vdecl (vget st (nth i vs O)) = NoDecl
+       /\ vname (vget st (nth i vs O)) = x) /\
+    (forall i s a x, (i < length vs)%nat -> nth i ts (TGlobal 0) = TBind s a x ->
+       vdecl (vget st (nth i vs O)) <> NoDecl /\ vname (vget st (nth i vs O)) = x) /\
+    (forall i, (i < length vs)%nat ->
+       vuses (vget st (nth i vs O)) = Z.of_nat (count_occ Nat.eq_dec vs (nth i vs O))).
+Proof.
+  intros Hc Hok Haux Hocc.
+  destruct (resolution_correct_m p Hc Hok Hocc) as (ps & Hrun & R). exists ps. split; [exact Hrun|]. cbn zeta in *.
+  set (st := pst ps) in *. set (vs := map (root_of st) (rev (plog ps))) in *. set (ts := spec_resolve p) in *.
+  rewrite <- (spec_resolve_erase p) in R. fold ts in R. rewrite map_length in R.
+  destruct R as (Rlen & Riff & Rglob & Rbound & Ruses).
+  assert (Hnth : forall i, (i < length ts)%nat -> nth i (map erase ts) (TGlobal 0) = erase (nth i ts (TGlobal 0))).
+  { intros i Hi. rewrite (nth_indep _ (TGlobal 0) (erase (TGlobal 0))) by (rewrite map_length; exact Hi). apply map_nth. }
+  split; [exact Rlen|]. split; [|split; [|split; [|exact Ruses]]].
+  - intros i j Hi Hj. rewrite (Riff i j Hi Hj). rewrite !Hnth by (rewrite <- Rlen; assumption). split.
+    + apply (erase_inj ts _ _ Haux); apply nth_In; rewrite <- Rlen; assumption.
+    + intros ->. reflexivity.
+  - intros i x Hi Ex. apply (Rglob i x Hi). rewrite Hnth by (rewrite <- Rlen; exact Hi). rewrite Ex. reflexivity.
+  - intros i s a x Hi Ex. apply (Rbound i s false x Hi). rewrite Hnth by (rewrite <- Rlen; exact Hi). rewrite Ex. reflexivity.
+Qed.
+
+(* the fragment without function-expression names and loops has no auxiliary scopes *)
+Corollary resolution_correct_core_d p :
+  core_d p = true -> program_ok p = true -> Z.of_nat (occurrences p) < 65536 ->
+  exists ps,
+    run_program p = Running ps /\
+    let st := pst ps in
+    let vs := map (root_of st) (rev (plog ps)) in
+    let ts := spec_resolve p in
+    length vs = length ts /\
+    (forall i j, (i < length vs)%nat -> (j < length vs)%nat ->
+       (nth i vs O = nth j vs O <-> nth i ts (TGlobal 0) = nth j ts (TGlobal 0))) /\
+    (forall i x, (i < length vs)%nat -> nth i ts (TGlobal 0) = TGlobal x ->
+       In (nth i vs O) (sundeclared (sc_of st O)) /\ vdecl (vget st (nth i vs O)) = NoDecl
+       /\ vname (vget st (nth i vs O)) = x) /\
+    (forall i s a x, (i < length vs)%nat -> nth i ts (TGlobal 0) = TBind s a x ->
+       vdecl (vget st (nth i vs O)) <> NoDecl /\ vname (vget st (nth i vs O)) = x) /\
+    (forall i, (i < length vs)%nat ->
+       vuses (vget st (nth i vs O)) = Z.of_nat (count_occ Nat.eq_dec vs (nth i vs O))).
+Proof.
+  intros Hc Hok Hocc. apply resolution_correct_core; [apply (proj1 (core_d_core_x p)); exact Hc|exact Hok| |exact Hocc].
+  apply core_d_aux_distinct. exact Hc.
 Qed.
 
 (* ---- the hypotheses are satisfiable: shadowing, use before declaration, hoisting through nested and
@@ -275,4 +333,28 @@ Proof. vm_compute. repeat split; reflexivity. Qed.
 
 Example example_c_partition :
   option_map (canon Nat.eqb) (occurrence_vars example_prog_c) = Some (canon target_eqb (spec_resolve example_prog_c)).
+Proof. vm_compute. reflexivity. Qed.
+
+(* loops and function-expression names: a for(let ...) with an initialiser and a closure in the body, var in
+   a loop head, a nested loop, a named function expression that calls itself, one in a default value      *)
+(*   let a; for (let i = a, j = i; ; ) { i; j; (function(){ i; k }); let c; var k }
+     for (var v of a) { v; for (let w of v) { w; v } }
+     (function f(n, h = function g(){ g; n }) { f; n; h; var q });  k; v                                   *)
+Definition example_prog_x : prog :=
+  Decl DLex 1
+  (For (Decl DLex 2 (Ref 1 (Decl DLex 3 (Ref 2 Done))))
+       (Ref 2 (Ref 3 (Func None Done (Ref 2 (Ref 4 Done)) (Decl DLex 5 (Decl DVar 4 Done)))))
+  (For (Decl DVar 6 (Ref 1 Done))
+       (Ref 6 (For (Decl DLex 7 (Ref 6 Done)) (Ref 7 (Ref 6 Done)) Done))
+  (Func (Some 8) (Decl DParam 9 (Decl DParam 10 (Func (Some 11) Done (Ref 11 (Ref 9 Done)) Done)))
+        (Ref 8 (Ref 9 (Ref 10 (Decl DVar 12 Done))))
+  (Ref 4 (Ref 6 Done))))).
+
+Example example_x_hyps :
+  core_x example_prog_x = true /\ core_d example_prog_x = false /\ program_ok example_prog_x = true
+  /\ aux_distinct (spec_resolve example_prog_x) = true /\ Z.of_nat (occurrences example_prog_x) < 65536.
+Proof. vm_compute. repeat split; reflexivity. Qed.
+
+Example example_x_partition :
+  option_map (canon Nat.eqb) (occurrence_vars example_prog_x) = Some (canon target_eqb (spec_resolve example_prog_x)).
 Proof. vm_compute. reflexivity. Qed.
